@@ -20,5 +20,34 @@ for _f in sorted(glob.glob(os.path.join(os.path.dirname(os.path.abspath(__file__
     PROPS[_pid] = _m.PROP
     MANIFEST_TEXT[_pid] = _m.MANIFEST
 
+# ---------------------------------------------------------------------------------------------------------------------------
+# Ties a property's theorems RELY on although they are proved in another property's files.  A theorem about the reference
+# semantics / the pipeline model says something about the Go code only through "model = regenerated source" bridges of the
+# stages the property runs through; when such a bridge no longer checks, the property is no longer shown to hold for the code
+# (the check then searches for a failing input and otherwise reports `no-failing-input-found`, naming the bridge lemma).
+RUN_TIE = ["Bridge/BrSchemes.vo", "Bridge/BrSchemesItems.vo", "Bridge/BrVMSteps.vo", "Bridge/BrRuntime.vo", "Bridge/BrC14.vo"]   # compiler schemes, dispatch loop, run-time helpers, helper tables
+FRONT_TIE = ["Bridge/BrLexer.vo", "Bridge/BrParser.vo"]
+CHECK_TIE = ["Bridge/BrChecker.vo", "Bridge/BrTables.vo"]
+OPT_TIE = ["Bridge/BrOpt.vo"]
+PIPE_TIE = ["Bridge/BrC04.vo"]        # stage order of expr.Compile / Eval / Run, recover table
+WALK_TIE = ["Bridge/BrC10.vo"]
+TIES = {
+    "C02": RUN_TIE + PIPE_TIE + WALK_TIE,
+    "C03": RUN_TIE + PIPE_TIE + ["Bridge/BrTables.vo"],
+    "C04": FRONT_TIE + CHECK_TIE + OPT_TIE + RUN_TIE + PIPE_TIE + WALK_TIE + ["Bridge/BrSource.vo"],
+    "C06": ["Bridge/BrRuntime.vo", "Bridge/BrSchemes.vo"],
+    "C07": ["Bridge/BrRuntime.vo"],
+    "C10": PIPE_TIE + OPT_TIE + ["Bridge/BrTables.vo"],
+    "C13": FRONT_TIE + CHECK_TIE + RUN_TIE + PIPE_TIE,
+    "C15": RUN_TIE + CHECK_TIE + PIPE_TIE,
+    "C16": RUN_TIE + ["Bridge/BrChecker.vo"],
+    "C17": RUN_TIE + PIPE_TIE + WALK_TIE + ["Bridge/BrChecker.vo"],
+    "C18": RUN_TIE + PIPE_TIE,
+}
+for _pid, _extra in TIES.items():
+    _t = PROPS[_pid]["targets"]
+    PROPS[_pid]["tie_targets"] = [x for x in _extra if x not in _t]
+    _t.extend(PROPS[_pid]["tie_targets"])
+
 NOT_APPLICABLE = {pid: "check not built yet in this session (planned, see DESIGN.md section 7)" for pid in
                   ["C%02d" % i for i in range(1, 19)]}
